@@ -59,6 +59,9 @@ func (k msgServer) UpdateSubDistributorDestinationShareParam(goCtx context.Conte
 	ctx := sdk.UnwrapSDKContext(goCtx)
 	subDistributors := k.Keeper.GetParams(ctx).SubDistributors
 	for i, subDistributor := range subDistributors {
+		if subDistributor.Name != msg.SubDistributorName {
+			continue
+		}
 		for y, share := range subDistributor.Destinations.Shares {
 			if share.Name == msg.DestinationName {
 				subDistributors[i].Destinations.Shares[y].Share = msg.Share
